@@ -18,3 +18,4 @@ PROP = dict(
           dict(name='C20_hyp_traces', kind='hyp', script='harness/C20_hyp.py', args=['traces'], quick=dict(scale=1), thorough=dict(scale=8, seeds=3))],
 )
 PROP['rule'] += ' Traces are also recorded and saved after the application has installed a global C++ locale with digit grouping and either decimal point (2 of 5 cases).'
+PROP['rule'] += ' Round-4 extension: names, categories, thread and process names include quotes, backslashes and control characters; the log may be saved from an atexit handler registered before the first trace call, or into a pipe; 2..4 threads write images of one format concurrently (rows up to 70001 pixels); single-row images whose output row exceeds 8 MiB.'
